@@ -1,6 +1,7 @@
 package opcua
 
 import (
+	"reflect"
 	"time"
 
 	"github.com/gopcua/opcua/ua"
@@ -10,6 +11,7 @@ import (
 // C23 — client options affect only the client they are applied to.
 func VerifH_C23_Options() {
 	before := *uacp.DefaultClientACK
+	locales0 := append([]string{}, DefaultSessionConfig().LocaleIDs...)
 	a, b, c, d := vfU32("maxMsg"), vfU32("maxChunks"), vfU32("recvBuf"), vfU32("sendBuf")
 	lt, rt, st := vfU32("lifetimeMs"), vfU32("reqTimeoutMs"), vfU32("sessTimeoutMs")
 	cfg1, err := ApplyConfig(
@@ -36,12 +38,16 @@ func VerifH_C23_Options() {
 		"a client created later inherits another client's channel options")
 	ds := DefaultSessionConfig()
 	vfAssert(cfg2.session.SessionTimeout == ds.SessionTimeout && cfg2.session.SessionName == ds.SessionName, "a client created later inherits another client's session options")
+	vfAssert(reflect.DeepEqual(cfg2.session.LocaleIDs, locales0) && reflect.DeepEqual(DefaultSessionConfig().LocaleIDs, locales0), "a client created later inherits another client's locales")
+	vfAssert(cfg1.session.LocaleIDs[0] == "de", "the locale option is not applied")
 	// nothing mutable is shared between the two configurations
 	vfAssert(cfg1.dialer != cfg2.dialer && cfg1.dialer.ClientACK != cfg2.dialer.ClientACK && cfg1.dialer.Dialer != cfg2.dialer.Dialer &&
 		cfg1.sechan != cfg2.sechan && cfg1.session != cfg2.session && cfg1.session.ClientDescription != cfg2.session.ClientDescription,
 		"two client configurations share mutable state")
 	// configuring the second client does not reach back into the first
-	_, err = ApplyConfig(MaxMessageSize(a+1), SendBufferSize(d+1))
+	_, err = ApplyConfig(MaxMessageSize(a+1), SendBufferSize(d+1), Locales("fr"), ApplicationName("three"))
+	vfAssert(cfg1.session.LocaleIDs[0] == "de" && reflect.DeepEqual(cfg2.session.LocaleIDs, locales0) && cfg1.session.ClientDescription.ApplicationName.Text == "one",
+		"configuring another client changed an existing client's session configuration")
 	vfAssert(cfg1.dialer.ClientACK.MaxMessageSize == a && cfg1.dialer.ClientACK.SendBufSize == d, "configuring another client changed an existing client's configuration")
 	vfReach("isolated")
 }
